@@ -230,6 +230,7 @@ theorem exitClean_apply (g : G) (a : Action) (hg : ExitClean g) : ExitClean (g.a
     · split
       · exact exitClean_of_jview (by rfl) hg
       · exact exitClean_of_jview (by rw [jview_wake]; rfl) hg
+  | cancelRem p => exact exitClean_of_jview (jview_deliverCancels g _) hg
 
 theorem exitClean_react (g : G) (a : Action) (hg : ExitClean g) : ExitClean (react g a).1 := by
   unfold react
